@@ -429,6 +429,19 @@ def main(args):
             for ws in (False, True):
                 for f in c["files"]:
                     items.append({"kind": "workspace", "files": files, "lex": lex, "open": f["name"], "ws": ws})
+    # a problem with an include directive INSIDE an included file (its target does not exist), far below the length of the
+    # root document: whatever is published about it for the root must still be a range of the root
+    if not args.replay:
+        extra = []
+        for it in items:
+            if it["kind"] == "workspace" and it["open"] == "main.journal" and len(it["files"]) >= 2 and len(extra) < 8:
+                inc = sorted(n for n in it["files"] if n != "main.journal")[0]
+                if ("include " + inc.split("/")[-1]) not in it["files"]["main.journal"] and ("include " + inc) not in it["files"]["main.journal"]:
+                    continue
+                files = dict(it["files"])
+                files[inc] = files[inc] + "; pad\n" * 80 + "include nosuchfile.journal\n"
+                extra.append({"kind": "workspace", "files": files, "lex": it["lex"], "open": "main.journal", "ws": it["ws"], "trigger": "nested-include-problem"})
+        items += extra
     # damaged journals (Damage.tla): no lexeme table is claimed for them, but whatever the server reports about them must
     # still be a range of the document (inside it, start <= end, no surrogate pair split)
     if not args.replay:
@@ -465,7 +478,7 @@ def main(args):
             if it["kind"] == "damaged":
                 sig = "damaged-input:" + sig
             table[sig] += 1
-            run.diverge(sig, what, it, None)
+            run.diverge(sig, what, it, None, trigger=it.get("trigger"))
     if os.environ.get("VERIF_TABLE"):
         for k, n in sorted(table.items(), key=str):
             print("TABLE", k, n)
